@@ -14,7 +14,7 @@ import random
 from ..common import work_dir, cleanup, seed_from_env, MachineryError
 
 KEYS = ("tid", "seq", "ev", "tok", "val", "chld", "anc", "links", "outcome", "exc", "date_kind", "expect_ok", "recomputed",
-        "n_values_to_recompute", "all_ups_active", "date_hour", "hourly_input_changed")
+        "n_values_to_recompute", "all_ups_active", "date_hour", "hourly_input_changed", "timeline_shifted")
 
 
 def model_cfg(structural):
@@ -75,7 +75,7 @@ def run_focus(prop, focus, tier, out):
         for t, s, clause, data in fails:
             e = by.get((t, s), {})
             create = next((x for x in events if x["tid"] == t and x["ev"] in ("SimCreate", "SimProbe")), {})
-            out.violation(f"{clause}:{create.get('flavour')}:{create.get('date_kind')}" if "hourly-input-replaced" not in clause else clause,
+            out.violation(f"{clause}:{create.get('flavour')}:{create.get('date_kind')}" if "(" not in clause else clause,
                           {"clause": clause, "spec_says": data[:1500], "seed": e.get("seed"), "event": e.get("ev"),
                            "flavour": create.get("flavour"), "date_kind": create.get("date_kind"),
                            "outcome": create.get("outcome"), "exc": create.get("exc")})
